@@ -203,8 +203,23 @@ func cliExit(r *Run) {
 			res = r.RunPar(setDir, "create", "x.zip", w.Files[0].Name)
 			check(res, "par create x.zip", notIn(0, 3), "not 0 and not 3 (unknown extension)", "fresh")
 		} else {
-			res = r.RunPar(setDir, "create", "other"+ext, "no-such-input-file")
+			missing := []string{"no-such-input-file", "no-such-*.dat", "missing[1].txt", "what?.bin"}[t.Draw(4, "missing-name")]
+			margs := []string{"create", "other" + ext, missing}
+			if t.Bool(1, 2, "with-existing-input") {
+				margs = []string{"create", "other" + ext, w.Files[0].Name, missing}
+				if t.Bool(1, 2, "missing-first") {
+					margs = []string{"create", "other" + ext, missing, w.Files[0].Name}
+				}
+			}
+			res = r.RunPar(setDir, margs...)
 			check(res, "par create with a missing input", notIn(0, 3), "not 0 and not 3 (missing input)", "fresh")
+			if ents, err := os.ReadDir(setDir); err == nil {
+				for _, e := range ents {
+					if strings.HasPrefix(e.Name(), "other.") {
+						os.Remove(filepath.Join(setDir, e.Name()))
+					}
+				}
+			}
 		}
 	}
 
